@@ -169,6 +169,8 @@ pub enum CtrlAnswers {
 
 pub struct Recorder {
     pub log: Vec<(u64, Cb)>,
+    /// world-wide sequence number of each log entry
+    pub orders: Vec<u64>,
     pub app_iin: ApplicationIin,
     pub ctrl: CtrlAnswers,
     ctrl_rng: Rng,
@@ -187,6 +189,7 @@ impl Recorder {
         };
         Self {
             log: Vec::new(),
+            orders: Vec::new(),
             app_iin: ApplicationIin::default(),
             ctrl,
             ctrl_rng: Rng::new(seed),
@@ -205,6 +208,8 @@ impl Recorder {
                 core.log(format!("  callback {:?}", cb));
             }
         }
+        let order = crate::verif::kernel::current().map(|c| c.next_order()).unwrap_or(0);
+        self.orders.push(order);
         self.log.push((t, cb));
     }
 
@@ -729,6 +734,10 @@ impl OutNode {
 
     pub fn callbacks_since(&self, n: usize) -> Vec<(u64, Cb)> {
         self.rec.lock().unwrap().log[n..].to_vec()
+    }
+
+    pub fn callback_orders_since(&self, n: usize) -> Vec<u64> {
+        self.rec.lock().unwrap().orders[n..].to_vec()
     }
 
     pub fn callback_count(&self) -> usize {
